@@ -17,13 +17,13 @@ OUT = "histories longer than stated from the stated recipe states; block sizes o
 checks = {}
 checks["C01"] = {
  "level": "model_checking",
- "jobs": [job("Verif_C01_Linear", [0, 2, 3, 4, 5, 6, 7, 8], [0, 1, 2, 3, 4, 5, 6, 7, 8]), job("Verif_C01_TLSF", [0, 1, 20, 30], [0, 1, 2, 20, 21, 30])],
+ "jobs": [job("Verif_C01_Linear", [0, 2, 3, 4, 5, 6, 7, 8], [0, 1, 2, 3, 4, 5, 6, 7, 8], deep=[0, 3, 4, 7, 8]), job("Verif_C01_TLSF", [0, 1, 20, 30], [0, 1, 2, 20, 21, 30])],
  "bounds_quick": LIN_Q + "; " + LIN_RECIPES + " (quick: without the ring-buffer recipe; 2 operations after a recipe, 1 after compaction); " + TLSF_Q + "; TLSF one-hole recipe (100-byte hole at the unaligned offset 10 between live allocations) + 2 operations with symbolic alignment",
  "bounds_thorough": "as quick with 4 operations per history (3 after a recipe, 2 after compaction), block sizes 100 and 128 (linear) / 256, 320, 1000 (TLSF), ring-buffer recipe, TLSF recipe T(n<=4,F,pi) + 2 operations",
  "assumptions": BLOCK_ASSUME, "outside": OUT}
 checks["C03"] = {
  "level": "model_checking",
- "jobs": [job("Verif_C03_Linear", [0, 4, 5, 7, 8], [0, 1, 3, 4, 5, 6, 7, 8]), job("Verif_C03_TLSF", [0, 1, 20], [0, 1, 2, 20, 21, 30])],
+ "jobs": [job("Verif_C03_Linear", [0, 4, 5, 7, 8], [0, 1, 3, 4, 5, 6, 7, 8], deep=[0, 4, 7, 8]), job("Verif_C03_TLSF", [0, 1, 20], [0, 1, 2, 20, 21, 30])],
  "bounds_quick": LIN_Q + " and the compaction family with an upper stack + 1 operation; " + TLSF_Q.replace("256 and 320", "256") + ". After every operation: tiling of the enumerated regions, allocation count, free bytes, emptiness flag, Statistics, DetailedStatistics (min/max, unused ranges) against the harness' own live set, and Validate()==nil (Validate is executed symbolically as code under test).",
  "bounds_thorough": "as quick with 4 operations, all linear recipes, TLSF blocks 256/320 and recipe T(n<=4,F,pi)",
  "assumptions": BLOCK_ASSUME, "outside": OUT}
@@ -35,13 +35,13 @@ checks["C05"] = {
  "assumptions": BLOCK_ASSUME + ["granularity rules in force: none (null handler); the granularity-aware variant is part of C09's harness"], "outside": OUT}
 checks["C06"] = {
  "level": "model_checking",
- "jobs": [job("Verif_C06_Linear", [0, 3, 5, 7, 8], [0, 1, 2, 3, 4, 5, 6, 7, 8]), job("Verif_C06_TLSF", [0, 1, 20], [0, 1, 20, 21])],
+ "jobs": [job("Verif_C06_Linear", [0, 3, 5, 7, 8], [0, 1, 2, 3, 4, 5, 6, 7, 8], deep=[0, 4, 7, 8]), job("Verif_C06_TLSF", [0, 1, 20], [0, 1, 20, 21])],
  "bounds_quick": LIN_Q + ", double-stack recipe and compaction family; " + TLSF_Q + "; after the history every remaining allocation is freed in ascending or descending order of age",
  "bounds_thorough": "all linear recipes, 4 operations, TLSF recipes",
  "assumptions": BLOCK_ASSUME, "outside": OUT}
 checks["C13"] = {
  "level": "model_checking",
- "jobs": [job("Verif_C13_Linear", [0, 3, 4, 7, 8], [0, 1, 2, 3, 4, 5, 6, 7, 8]), job("Verif_C13_TLSF", [0, 1, 20], [0, 1, 2, 20])],
+ "jobs": [job("Verif_C13_Linear", [0, 3, 4, 7, 8], [0, 1, 2, 3, 4, 5, 6, 7, 8], deep=[0, 3, 4, 7, 8]), job("Verif_C13_TLSF", [0, 1, 20], [0, 1, 2, 20])],
  "bounds_quick": LIN_Q + " + recipes L2(2,2), L1(4) with 2 operations; " + TLSF_Q + "; every call runs inside a panic catcher; a refusal must leave all observables unchanged. Block level only (the allocator-level clauses are checked by the vam harnesses).",
  "bounds_thorough": "all recipes, 4 operations",
  "assumptions": BLOCK_ASSUME, "outside": OUT + "; stale handles; alignment 0"}
@@ -53,7 +53,7 @@ checks["C16"] = {
  "assumptions": BLOCK_ASSUME + ["granularity 1: no conflict relation in force (granularity bumps are checked against the page rule by C09)"], "outside": OUT}
 checks["C17"] = {
  "level": "model_checking",
- "jobs": [job("Verif_C17_Linear", [0, 3, 4, 7, 8], [0, 1, 2, 3, 4, 5, 6, 7, 8]), job("Verif_C17_TLSF", [0, 1, 20], [0, 1, 20, 21])],
+ "jobs": [job("Verif_C17_Linear", [0, 3, 4, 7, 8], [0, 1, 2, 3, 4, 5, 6, 7, 8], deep=[0, 4, 7, 8]), job("Verif_C17_TLSF", [0, 1, 20], [0, 1, 20, 21])],
  "bounds_quick": LIN_Q + " + recipes L2(2,2), L1(4); " + TLSF_Q + "; after every operation: user data and offset by handle for every live allocation, SetAllocationUserData on each allocation in turn, region visitor and (TLSF) list iteration visit every live allocation exactly once",
  "bounds_thorough": "all recipes, 4 operations",
  "assumptions": BLOCK_ASSUME, "outside": OUT}
@@ -108,7 +108,7 @@ checks["C07"]["jobs"].append(vjob("Verif_C07_VDefrag", [0, 32], [0, 32, 128]))
 checks["C07"]["bounds_quick"] += " vam layer: " + VDEF
 checks["C07"]["assumptions"] = checks["C07"]["assumptions"] + VAM_ASSUME
 checks["C08"] = {"level": "model_checking",
- "jobs": [vjob("Verif_C08_Kernels", [0], [0]), vjob("Verif_C08_Maps", [2, 34, 98, 226, 256], [2, 34, 98, 226, 0, 32, 256, 288]), vjob("Verif_C08_VDefrag", [0], [0, 32])],
+ "jobs": [vjob("Verif_C08_Kernels", [0], [0]), vjob("Verif_C08_Maps", [2, 34, 98, 226, 256], [2, 34, 98, 226, 0, 32, 256, 288], deep=[2, 34]), vjob("Verif_C08_VDefrag", [0], [0, 32])],
  "bounds_quick": "kernel at full width: minimum alignment of a memory type for all flag words and atom sizes 2^0..2^12; scripts on two allocations sharing a block (coherent and non-coherent type, atom 64): 0 or 4 map/unmap pairs, 0 or 4 allocate/free pairs (drives the mapping hysteresis over its 7-event thresholds), then one of 5 final operation groups (map/unmap, nested maps of two allocations, map + free of the neighbour, free + map of the neighbour, persistently mapped allocation); flush/invalidate with symbolic offset and size (any positive size, WholeSize) on either allocation; defragmentation run; every driver call is checked by the simulated device against the valid-usage rules of the property, flush ranges additionally against the other live allocations",
  "bounds_thorough": "0/3/4 pairs, all device variants",
  "assumptions": VAM_ASSUME + ["caller obligations: flush/invalidate only while the allocation is mapped, balanced Map/Unmap, offset >= 0"], "outside": VAM_OUT + "; bind offsets chosen by the caller; image binds"}
@@ -118,7 +118,7 @@ checks["C09"] = {"level": "model_checking",
  "bounds_thorough": "one more operation, all five kinds, granularity 4096",
  "assumptions": ["default build"], "outside": "more operations; other granularities; defragmentation (the vam defragmentation harness keeps kinds unknown)"}
 checks["C10"] = {"level": "fault_enumeration",
- "jobs": [vjob("Verif_C10_Faults", [0, 32, 64, 96, 128, 160, 192, 224], [0, 32, 64, 96, 128, 160, 192, 224, 2, 34, 98])],
+ "jobs": [vjob("Verif_C10_Faults", [0, 32, 64, 96, 128, 160, 192, 224], [0, 32, 64, 96, 128, 160, 192, 224, 2, 34, 98], deep=[0, 224])],
  "bounds_quick": "a fault-free history of 1 call, then one operation under fault injection: every fallible driver call (AllocateMemory, MapMemory, CreateBuffer, BindBufferMemory) asks a symbolic Boolean whether to fail (at most 1 fault; 2 for the multi-step operations), so every position first/k-th/last is covered by the solver. Operations: single block allocation, persistently mapped allocation, dedicated allocation, multi-allocation of 3, mapped dedicated multi-allocation of 3, pool creation with 2 minimum blocks, CreateBuffer, Map after 0..3 map/unmap pairs (covers the call on which the mapping hysteresis flips). On failure: error not panic, caller Allocations unallocated and reusable (a fault-free allocation into them is accepted), every live device object owned by a block list or a live dedicated allocation, empty spare blocks within max(minBlockCount,1), existing allocations untouched, C02 and C04 equalities, no invalid driver call",
  "bounds_thorough": "history of 2 calls, 2 faults everywhere, atom-64 variant",
  "assumptions": VAM_ASSUME + ["fault kinds: VK_ERROR_OUT_OF_DEVICE_MEMORY for allocate/bind, VK_ERROR_MEMORY_MAP_FAILED for map, VK_ERROR_OUT_OF_HOST_MEMORY for create"], "outside": VAM_OUT + "; faults in GetMemoryRequirements2 / image paths"}
@@ -131,7 +131,7 @@ checks["C13"]["jobs"] += [vjob("Verif_C13_Hist", [0, 96], [0, 32, 96])]
 checks["C13"]["bounds_quick"] += " Allocator level: " + VAM_HIST + " with every call inside a panic catcher; refusals compared with a snapshot of device objects, live allocations and counters; CreatePool with every memory type index in [-2,40]."
 checks["C13"]["assumptions"] = checks["C13"]["assumptions"] + VAM_ASSUME
 checks["C14"] = {"level": "model_checking",
- "jobs": [vjob("Verif_C14_Maps", [2, 34, 256], [2, 34, 0, 32, 256, 288]), vjob("Verif_C14_VDefrag", [0, 128], [0, 32, 128, 160])],
+ "jobs": [vjob("Verif_C14_Maps", [2, 34, 256], [2, 34, 0, 32, 256, 288], deep=[2, 34]), vjob("Verif_C14_VDefrag", [0, 128], [0, 32, 128, 160])],
  "bounds_quick": "the C08 scripts (hysteresis-crossing map/unmap and allocate/free sequences on allocations sharing a block; a sweep of all 7 phases of the 7-event hysteresis window with 3 or 4 map/unmap pairs followed by 3 or 4 allocate/free pairs, fixed sizes) and the defragmentation run: every Map must return base(Memory()) + FindOffset() of the allocation's current location with the object mapped in the driver; after every event the memory behind persistent mappings and outstanding user maps is still mapped; persistently mapped allocations stay mapped after relocation",
  "bounds_thorough": "0/3/4 pairs, device variants",
  "assumptions": VAM_ASSUME + ["stores through the pointer are modelled as address ranges (pointer value + size), not simulated"], "outside": VAM_OUT}
@@ -155,6 +155,7 @@ checks["C12"] = {"level": "exploration",
  "assumptions": VAM_ASSUME + ["sequentially consistent atomics; happens-before edges from mutexes (RLock treated like Lock), atomics, sync.Pool, goroutine start and join", "the simulated driver is internally locked (as a Vulkan driver is thread-safe for distinct objects); its lock adds happens-before edges that can hide a race between accesses separated by driver calls on both sides", "race monitor granularity: heap slots reached through loads and stores; element accesses inside append/copy and map operations are not monitored"],
  "outside": "more than two goroutines; longer operation sequences per goroutine; schedules with more than 2 pre-emptions; pre-emption between two plain memory accesses (only relevant for racy code, which the monitor reports anyway); BuildStatsString; weak-memory effects; this is bounded schedule exploration, not a proof of race freedom"}
 
+DEEP_NOTE = {'C16': '4 operations (3 after a recipe), block sizes 100 and 128, compaction family', 'C19': 'fall-back harness with a pre-existing block in either type'}
 # ---- thorough tier: description generated from the job lists ------------------------------------------------------
 LEGEND = {
  "Linear": "linear cfg: 0 empty 100-byte block, 1 empty 128-byte block, 2 ring buffer L3(3,j,m), 3 double stack L2(2,2), 4 stack L1(4) with freed middle entries, 5/6 compaction family with/without an upper stack, 7 small ring L3(2,1,2), 8 ring L3(2,1,3) with one symbolic size",
@@ -180,7 +181,7 @@ for cid, c in checks.items():
     if parts:
         t += "History depths, symbolic inputs and oracles as in the quick tier, on more configurations (block sizes, recipes, device variants): " + "; ".join(parts) + ". "
     if deep:
-        t += "Deeper variant (one more operation or call per history; " + c["bounds_thorough"] + "): " + "; ".join(deep) + ". "
+        t += "Deeper variant (one more operation or call per history: linear 4 operations from the empty block and 3 after a recipe; map scripts with 0/3/4 pairs; fault harness with a longer fault-free pre-history and 2 faults everywhere; " + DEEP_NOTE.get(cid, "other entries as stated in their harness") + "): " + "; ".join(deep) + ". "
     t += "24 instead of 6 native validations per job; 480/160 instead of 40/10 queries re-decided by the other solvers. Legend: " + " | ".join(LEGEND[l] for l in legs)
     c["bounds_thorough"] = t
 
